@@ -589,6 +589,15 @@ class ProfileSet:
         f = self.outside_form
         return {"int": 3, "numpy.int64": np.int64(3), "bool": True, "numpy.float64": np.float64(self.outside)}.get(f, self.outside)
 
+    def build_one(self, eq, which):
+        """One mapped function ("map2d", "map3d", "map_vector2d", "map_vector3d") on the given equilibrium."""
+        if which in ("map2d", "map3d"):
+            fn = getattr(eq, which)
+            return fn(self.scalar.fresh_arg()) if self.default_outside else fn(self.scalar.fresh_arg(), self.outside_arg())
+        fn = getattr(eq, which)
+        args = [self.vt.fresh_arg(), self.vp.fresh_arg(), self.vn.fresh_arg()]
+        return fn(*args) if self.outv_form == "omitted" else fn(*args, self.outv)
+
     def build(self, eq):
         """The four mapped functions.  Array arguments are fresh objects that are overwritten after the
         call: the mapped functions must not alias the caller's arrays."""
@@ -1230,3 +1239,130 @@ def interpolation_weights(E, r, z):
     if float(Interpolator2DArray(E.r, E.z, rest, "cubic", "none", 0, 0)(r, z)) != 0.0:
         return None
     return nodes, ws
+
+
+# ---------------------------------------------------------------------------------------------
+# sequences of calls on ONE long-lived equilibrium against fresh objects (history independence)
+# ---------------------------------------------------------------------------------------------
+def fresh_equilibrium(E):
+    """A new EFITEquilibrium from the constructor inputs of E (nothing shared with E.eq)."""
+    from raysect.core import Point2D
+    from cherab.tools.equilibrium import EFITEquilibrium
+    inp = E.inputs
+    return EFITEquilibrium(np.array(inp["r"], float), np.array(inp["z"], float), np.array(inp["psi"], float),
+                           float(inp["psi_axis"]), float(inp["psi_lcfs"]), Point2D(*inp["magnetic_axis"]), [], [],
+                           np.array(inp["f_profile"], float), np.array(inp["q_profile"], float),
+                           float(inp["b_vacuum_radius"]), float(inp["b_vacuum_magnitude"]),
+                           np.array(inp["lcfs_polygon"], float), None, 0.0)
+
+
+CALLS_2D = ("psi_normalised", "inside_lcfs", "b_field", "poloidal_vector", "surface_normal", "map2d", "map_vector2d")
+CALLS_3D = ("map3d", "map_vector3d")
+
+
+def _call(eq, fns, name, args):
+    """value (float or 3-tuple) or the exception class name"""
+    try:
+        if name in ("map2d", "map3d", "map_vector2d", "map_vector3d"):
+            v = fns[name](*args)
+        else:
+            v = getattr(eq, name)(*args)
+        return float(v) if isinstance(v, float) or not hasattr(v, "x") else v3(v)
+    except Exception as e:
+        return "raised " + type(e).__name__
+
+
+def call_sequence(E, rng, n_scan=7):
+    """A sequence of (function, arguments) on points of the domain built to expose state kept between
+    evaluations: repeated points; vertical scans at constant r and horizontal scans at constant z across the
+    LCFS; coincidences of coordinates (z == r, z == -r, r == the previous z, hypot(x, y) == z in 3-D); every
+    function at the same point alternately."""
+    r0, r1, z0, z1 = float(E.r[0]), float(E.r[-1]), float(E.z[0]), float(E.z[-1])
+    ax, az = E.axis
+    seq = []
+
+    def inbox(r, z):
+        return r0 <= r <= r1 and z0 <= z <= z1
+
+    def add2(name, r, z):
+        if inbox(r, z):
+            seq.append((name, (r, z)))
+
+    def add3(name, x, y, z):
+        r_s, r_v = mapper_radii(x, y, z)
+        if inbox(r_s, z) and inbox(r_v, z):
+            seq.append((name, (x, y, z)))
+
+    def everything_at(r, z):
+        names = list(CALLS_2D)
+        rng.shuffle(names)
+        for nm in names:
+            add2(nm, r, z)
+        phi = rng.choice([0.0, math.pi / 2, math.pi, rng.uniform(-math.pi, math.pi)])
+        x, y = (r, 0.0) if phi == 0.0 else ((0.0, r) if phi == math.pi / 2 else ((-r, 0.0) if phi == math.pi else (r * math.cos(phi), r * math.sin(phi))))
+        for nm in CALLS_3D:
+            add3(nm, x, y, z)
+    # coincidences: the diagonal z == r and the anti-diagonal z == -r, then the same r at other z (vertical scan), the
+    # same z at other r, and a point whose r is the previous z
+    diag = [d for d in (rng.uniform(max(r0, z0), min(r1, z1)) for _ in range(4)) if max(r0, z0) < min(r1, z1)]
+    adiag = [d for d in (rng.uniform(max(r0, -z1), min(r1, -z0)) for _ in range(2)) if max(r0, -z1) < min(r1, -z0)]
+    for d, sgn in [(d, 1.0) for d in diag[:3]] + [(d, -1.0) for d in adiag[:2]]:
+        nm = rng.choice(CALLS_2D)
+        add2(nm, d, sgn * d)
+        add2(rng.choice(CALLS_2D), d, sgn * d)                       # repeated point, another function
+        for k in range(n_scan):                                       # vertical scan at r == d across the LCFS
+            zz = z0 + (z1 - z0) * (k + 0.5) / n_scan
+            add2(rng.choice(("inside_lcfs", "map2d", "map_vector2d", "b_field", "inside_lcfs")), d, zz)
+        add2("inside_lcfs", d, az)
+        add2("map2d", d, az)
+        add2("inside_lcfs", d, sgn * d)
+        if z0 <= d <= z1:
+            for k in range(n_scan):                                   # horizontal scan at z == d
+                rr = r0 + (r1 - r0) * (k + 0.5) / n_scan
+                add2(rng.choice(("inside_lcfs", "map2d", "psi_normalised")), rr, d)
+        # 3-D: hypot(x, y) == z
+        if z0 <= d <= z1:
+            for (x, y) in ((d, 0.0), (0.0, d), (-d, 0.0), (d * math.cos(0.7), d * math.sin(0.7))):
+                add3(rng.choice(CALLS_3D), x, y, d)
+            for k in range(3):
+                add3(rng.choice(CALLS_3D), d, 0.0, z0 + (z1 - z0) * rng.random())
+    # scans through the magnetic axis, every function at a few points, repeated points
+    for k in range(n_scan):
+        add2(rng.choice(CALLS_2D), ax, z0 + (z1 - z0) * (k + 0.5) / n_scan)
+    for k in range(n_scan):
+        add2(rng.choice(CALLS_2D), r0 + (r1 - r0) * (k + 0.5) / n_scan, az)
+    for _ in range(2):
+        r, z = rng.uniform(r0, r1), rng.uniform(z0, z1)
+        everything_at(r, z)
+        add2("inside_lcfs", r, z)
+    prev = None
+    for _ in range(4):                                                # r == the previous z
+        r, z = rng.uniform(r0, r1), rng.uniform(max(z0, r0), min(z1, r1)) if max(z0, r0) < min(z1, r1) else rng.uniform(z0, z1)
+        if prev is not None and r0 <= prev <= r1:
+            r = prev
+        add2(rng.choice(CALLS_2D), r, z)
+        prev = z
+    return seq
+
+
+def sequence_failures(E, PS, fns4, rng, max_calls=60):
+    """Runs call_sequence on the long-lived E.eq and its mapped functions; every value must be bitwise what a
+    FRESH equilibrium (built from the same inputs, nothing evaluated before) returns for that single call.
+    Returns (failures, number of calls)."""
+    live = dict(zip(("map2d", "map3d", "map_vector2d", "map_vector3d"), fns4))
+    seq = call_sequence(E, rng)[:max_calls]
+    fails = []
+    for idx, (name, args) in enumerate(seq):
+        got = _call(E.eq, live, name, args)
+        feq = fresh_equilibrium(E)
+        ffns = {name: PS.build_one(feq, name)} if name in live else {}
+        want = _call(feq, ffns, name, args)
+        same = (got == want) if isinstance(got, str) or isinstance(want, str) else _same(got, want)
+        if not same:
+            fails.append({"clause": "%s on a long-lived equilibrium differs from a fresh equilibrium: the result depends on the "
+                                    "evaluation history" % name,
+                          "call": [name, [a.hex() for a in args], list(args)], "long_lived_object": got, "fresh_object": want,
+                          "sequence_before(function, arguments)": [[n_, list(a_)] for n_, a_ in seq[:idx]],
+                          "equilibrium": E.describe()})
+            break
+    return fails, len(seq)
